@@ -1,6 +1,6 @@
 (* Round trips of the hand-modelled irregular codecs (no origin): HIP, IPSECKEY, AMTRELAY, APL. *)
 From DV Require Import Base.Prelude Model.NameM Model.SchemaM Model.SchemaHand
-  Proofs.SchemaName Proofs.SchemaCodec Proofs.SchemaThm.
+  Proofs.SchemaName Proofs.SchemaCodec Proofs.SchemaThm Proofs.SchemaFix.
 Open Scope Z_scope.
 Ltac Zify.zify_post_hook ::= Z.to_euclidean_division_equations.
 
@@ -611,4 +611,93 @@ Proof.
   match goal with |- context [Nat.eqb ?a ?b] => replace (Nat.eqb a b) with true
     by (symmetry; apply Nat.eqb_eq; rewrite ?app_length; cbn [length]; lia) end.
   reflexivity.
+Qed.
+
+(* ------------------------------------------------------------------ OPT *)
+Lemma zlist_eqb_eq : forall a b, zlist_eqb a b = true -> a = b.
+Proof.
+  induction a as [|x a IH]; intros [|y b] H; cbn in H; try discriminate; [reflexivity|].
+  apply andb_prop in H as [H1 H2]. apply Z.eqb_eq in H1. f_equal; auto.
+Qed.
+
+Lemma opt_items_rt : forall items b fuel A P,
+  forallb opt_row_ok items = true -> opt_items_enc items = Ok b -> (length b < fuel)%nat ->
+  opt_items_dec fuel (A ++ b ++ P) (length A + length b) (length A) = Ok (items, (length A + length b)%nat).
+Proof.
+  induction items as [|r rr IH]; intros b fuel A P Hv He Hf; cbn [opt_items_enc] in He.
+  - apply Ok_inj in He. subst b. destruct fuel; cbn [opt_items_dec length]; rewrite Nat.add_0_r, Nat.leb_refl; reflexivity.
+  - cbn [forallb] in Hv. apply andb_prop in Hv as [Hr Hv2].
+    destruct r as [|[ot| | ] [|[ |p| ] [|]]]; cbn [opt_row_ok] in Hr; try discriminate.
+    apply andb_prop in Hr as [Hr Hpay]. apply andb_prop in Hr as [Ho0 Ho1].
+    destruct ((0 <=? ot) && (ot <? 65536) && (zlen p <? 65536)) eqn:Hrng; [|discriminate].
+    inv_bind He. apply Ok_inj in He. subst b. rename x into rest.
+    pose proof (zlen_nonneg p) as Hp0.
+    set (b1 := be_encode 2 ot) in *. set (b2 := be_encode 2 (zlen p)) in *.
+    assert (L1 : length b1 = 2%nat) by apply be_encode_length.
+    assert (L2 : length b2 = 2%nat) by apply be_encode_length.
+    destruct fuel as [|fuel']; [lia|]. cbn [opt_items_dec].
+    destruct (Nat.leb_spec (length A + length (b1 ++ b2 ++ p ++ rest)) (length A)) as [Hle|_];
+      [rewrite !app_length in Hle; lia|].
+    rewrite (get_u_at _ _ _ 2 ot A (b2 ++ p ++ rest) P)
+      by (try (subst b1 b2; list_eq'); try (rewrite pow256_2; lia); rewrite ?app_length; lia).
+    cbn [bind fst snd].
+    rewrite (get_u_at _ _ _ 2 (zlen p) (A ++ b1) (p ++ rest) P)
+      by (try (subst b1 b2; list_eq'); try (rewrite pow256_2; lia); rewrite ?app_length; lia).
+    cbn [bind fst snd].
+    replace (Z.to_nat (zlen p)) with (length p) by (unfold zlen; lia).
+    destruct (Nat.ltb_spec (length A + length (b1 ++ b2 ++ p ++ rest) - (length (A ++ b1) + 2)) (length p)) as [Hx|_];
+      [rewrite !app_length in Hx; lia|].
+    assert (Hpayload :
+      (if ot =? 18
+       then match get_name (A ++ (b1 ++ b2 ++ p ++ rest) ++ P) None false (length (A ++ b1) + 2 + length p) (length (A ++ b1) + 2) with
+            | Ok (n, c) => if Nat.eqb c (length (A ++ b1) + 2 + length p) then Ok (wire_labels false n) else Lib eFormError
+            | Lib e => Lib e
+            | Internal e => Internal e
+            end
+       else do d <- get_bytes (A ++ (b1 ++ b2 ++ p ++ rest) ++ P) (length (A ++ b1) + 2 + length p) (length (A ++ b1) + 2) (length p);
+            match opt_norm ot (fst d) with Some q => Ok q | None => Lib eFormError end) = Ok p).
+    { unfold opt_payload_ok in Hpay. destruct (ot =? 18) eqn:E18.
+      - destruct (NameM.from_wire p 0) as [[n c]| |] eqn:Ef; try discriminate.
+        apply andb_prop in Hpay as [Hc Hw]. apply Nat.eqb_eq in Hc. apply zlist_eqb_eq in Hw.
+        destruct (from_wire_abs_valid p 0 n c Ef) as [Habs Hval].
+        pose proof (hname_none false n p ((A ++ b1) ++ b2) [] (rest ++ P)) as Hn.
+        unfold nok_none in Hn. specialize (Hn Hval).
+        assert (Htw : NameM.to_wire n None false = Ok p) by (unfold NameM.to_wire; rewrite Habs, Hw; reflexivity).
+        specialize (Hn Htw).
+        replace (((A ++ b1) ++ b2) ++ p ++ [] ++ rest ++ P) with (A ++ (b1 ++ b2 ++ p ++ rest) ++ P) in Hn by list_eq'.
+        replace (length ((A ++ b1) ++ b2) + length p + length (@nil Z))%nat with (length (A ++ b1) + 2 + length p)%nat in Hn
+          by (rewrite ?app_length; cbn [length]; lia).
+        replace (length ((A ++ b1) ++ b2)) with (length (A ++ b1) + 2)%nat in Hn by (rewrite ?app_length; lia).
+        rewrite Hn. rewrite Nat.eqb_refl. rewrite Hw. reflexivity.
+      - rewrite (gb_at' _ _ _ _ ((A ++ b1) ++ b2) p [] (rest ++ P))
+          by (try (subst b1 b2; list_eq'); rewrite ?app_length; cbn [length]; lia).
+        cbn [bind fst snd].
+        destruct (opt_norm ot p) as [q|] eqn:En; [|discriminate].
+        apply zlist_eqb_eq in Hpay. subst q. reflexivity. }
+    rewrite Hpayload. cbn [bind].
+    assert (Hf2 : (length rest < fuel')%nat) by (rewrite !app_length in Hf; lia).
+    pose proof (IH rest fuel' (((A ++ b1) ++ b2) ++ p) P Hv2 E Hf2) as Hrec.
+    replace ((((A ++ b1) ++ b2) ++ p) ++ rest ++ P) with (A ++ (b1 ++ b2 ++ p ++ rest) ++ P) in Hrec by list_eq'.
+    replace (length (((A ++ b1) ++ b2) ++ p) + length rest)%nat
+      with (length A + length (b1 ++ b2 ++ p ++ rest))%nat in Hrec by (rewrite ?app_length; lia).
+    replace (length (((A ++ b1) ++ b2) ++ p)) with (length (A ++ b1) + 2 + length p)%nat in Hrec
+      by (rewrite ?app_length; lia).
+    rewrite Hrec. reflexivity.
+Qed.
+
+Theorem opt_roundtrip_thm : forall vs b A P,
+  hand_encode_rdata HOpt None vs = Ok b ->
+  hand_decode_rdata HOpt None (A ++ b ++ P) (length A) (length b) = Ok vs.
+Proof.
+  intros vs b A P He. unfold hand_encode_rdata in He. cbn [hand_valid hand_enc] in He.
+  destruct (opt_valid vs) eqn:Hv; [|discriminate].
+  unfold opt_valid in Hv. destruct vs as [|[|items] [|]]; try discriminate.
+  cbn [opt_enc] in He.
+  unfold hand_decode_rdata.
+  repeat match goal with |- context [Nat.ltb ?a ?b] =>
+    destruct (Nat.ltb_spec a b) as [Hx|_]; [exfalso; rewrite ?app_length in Hx; lia|] end.
+  cbv zeta. cbn [hand_dec hand_valid]. unfold opt_dec.
+  replace (length A + length b - length A)%nat with (length b) by lia.
+  rewrite (opt_items_rt items b (S (length b)) A P) by (auto; lia).
+  cbn [bind fst snd]. unfold opt_valid. rewrite Hv. cbn [negb]. rewrite Nat.eqb_refl. reflexivity.
 Qed.
